@@ -214,6 +214,133 @@ def gen_abs_scenario(r, i):
     return {'src': 'rand-abs', 'root_rel': ROOT_REL, 'ops': ops, 'query': q, 'decoys': [], 'filter': filt}
 
 
+def simulate(ops):
+    """(head, index, disk): path -> content id after the script, following c17_runner.build"""
+    head = {}; index = {}; disk = {}
+    for o in ops:
+        k = o[0]
+        if k == 'write': disk[o[1]] = o[2]
+        elif k == 'rm': disk.pop(o[1], None)
+        elif k == 'mv': disk[o[2]] = disk.pop(o[1])
+        elif k == 'add_all': index = dict(disk)
+        elif k == 'add':
+            pre = o[1] + '/'
+            for p in [p for p in index if p == o[1] or p.startswith(pre)]: del index[p]
+            for p, c in disk.items():
+                if p == o[1] or p.startswith(pre): index[p] = c
+        elif k == 'rm_cached': index.pop(o[1], None)
+        elif k == 'commit': index = dict(disk); head = dict(index)
+    return head, index, disk
+
+
+def gen_deleted_scenario(r, i):
+    """Paths that git reports as DELETED while something sits at the path on disk: a random history as in gen_scenario
+    (with its staged and unstaged changes), then for 1-3 notebooks of the last commit one of
+      rmcached    `git rm --cached p`, the file stays (untracked), left alone or edited afterwards
+      recreate    p removed, the removal staged, p written again (same content or new) as an untracked file
+      dir         p removed (removal staged or not) and a DIRECTORY named p with a notebook inside created
+      plain       an ordinary unstaged or staged deletion (nothing on disk: the control)
+    followed sometimes by unrelated working-tree edits.  Queries: commit/worktree mostly (HEAD or an older ref), also
+    index/worktree, commit/index and commit/commit (where git's answer involves no file on disk); from the root, the victim's
+    directory or any of its ancestors or another directory; without filters or with the victim's path / its directory / `.`;
+    API and command line; sometimes with a clean filter or a decoy above the repository."""
+    b = gen_scenario(r, i)
+    ops = [list(o) for o in b['ops']]
+    nxt = [1000 + 10 * i]
+    def fresh():
+        nxt[0] += 1; return nxt[0]
+    head, index, disk = simulate(ops)
+    cands = sorted(p for p in head if p.endswith(NB) and index.get(p) == head[p] and disk.get(p) == head[p])
+    if not cands or r.random() < 0.15:
+        # a notebook of our own in a directory of known depth, committed on top
+        d = r.choice(['', 'sub', 'sub/deep', 'sp ace'])
+        p = (d + '/' if d else '') + 'k%d' % r.randrange(3) + NB
+        c = fresh(); ops += [['write', p, c], ['commit']]
+        head, index, disk = simulate(ops)
+        cands = sorted(set(cands) | {p})
+        cands = [p for p in cands if p in head and index.get(p) == head[p] and disk.get(p) == head[p]]
+    victims = r.sample(cands, min(len(cands), r.choice([1, 1, 2, 3])))
+    variants = []
+    for p in victims:
+        v = r.choice(['rmcached', 'rmcached', 'rmcached', 'recreate', 'recreate', 'recreate', 'dir', 'plain'])
+        variants.append(v)
+        if v == 'rmcached':
+            ops.append(['rm_cached', p])
+            if r.random() < 0.5: ops.append(['write', p, fresh()])
+        elif v == 'recreate':
+            ops += [['rm', p], ['add', p], ['write', p, head[p] if r.random() < 0.4 else fresh()]]
+        elif v == 'dir':
+            ops.append(['rm', p])
+            if r.random() < 0.5: ops.append(['add', p])
+            ops.append(['write', p + '/inner' + NB, fresh()])
+        else:
+            ops.append(['rm', p])
+            if r.random() < 0.5: ops.append(['add', p])
+    # unrelated unstaged edits afterwards
+    others = sorted(q for q in disk if q.endswith(NB) and q not in victims)
+    for q in r.sample(others, min(len(others), r.choice([0, 0, 1, 2]))):
+        ops.append(['write', q, fresh()])
+    ncommits = sum(1 for o in ops if o[0] == 'commit')
+    kind = r.choice(['cw'] * 7 + ['iw', 'ci', 'cc'])
+    older = ['main', 'v1'] + ['HEAD~%d' % k for k in range(1, ncommits)]
+    ra = 'HEAD' if r.random() < 0.7 else r.choice(older)
+    if kind == 'cw': rb = 'WORKTREE'
+    elif kind == 'iw': ra, rb = 'INDEX', 'WORKTREE'
+    elif kind == 'ci': rb = 'INDEX'
+    else: ra, rb = r.choice(older), 'HEAD'
+    v0 = victims[0]
+    vdir = '/'.join(v0.split('/')[:-1])
+    anc = ['/'.join(v0.split('/')[:k]) for k in range(len(v0.split('/')))]       # '' ... the victim's directory
+    alld = sorted({'/'.join(q.split('/')[:k]) for q in disk for k in range(1, len(q.split('/')))} - {v0})
+    cwd = r.choice(anc + [vdir, ''] + (alld[:] if r.random() < 0.3 and alld else []))
+    if cwd in victims or any(cwd.startswith(v + '/') for v in victims): cwd = ''
+    paths = None
+    if r.random() < 0.5:
+        under = [q[len(cwd) + 1:] if cwd else q for q in victims + others if (not cwd or q.startswith(cwd + '/'))]
+        cands2 = under + ['.'] + sorted({u.split('/')[0] for u in under if '/' in u})
+        paths = r.sample(cands2, min(len(cands2), r.choice([1, 1, 2])))
+    q = {'mode': 'api', 'ref_a': ra, 'ref_b': rb, 'cwd': cwd, 'paths': paths}
+    if kind in ('cc', 'cw') and r.random() < 0.3:
+        pos = []
+        explicit_a = ra != 'HEAD' or kind == 'cc' or r.random() < 0.5
+        if explicit_a: pos.append(ra)
+        if kind == 'cc': pos.append(rb)
+        pl = list(paths or [])
+        if not explicit_a and len(pl) == 2: pl = pl[:1]              # two non-refs would be plain file mode
+        pos += pl
+        q = {'mode': 'cli', 'argv': pos, 'argv_pos': pos, 'ref_a': ra if explicit_a else 'HEAD', 'ref_b': rb, 'cwd': cwd, 'paths': pl or None}
+    decoys = []
+    if cwd and rb == 'WORKTREE' and r.random() < 0.2:
+        decoys.append([r.choice(['w/', '']) + v0, fresh() + 500])
+    filt = r.choice(['*.ipynb', '*.ipynb', 'sub/*.ipynb']) if r.random() < 0.15 else None
+    return {'src': 'rand-del', 'root_rel': ROOT_REL, 'ops': ops, 'query': q, 'decoys': decoys, 'filter': filt, 'variants': variants}
+
+
+def deleted_fixed():
+    """the observed defect and its nearest relatives, spelled out (no randomness)"""
+    out = []
+    api = lambda a, b, cwd, paths=None: {'mode': 'api', 'ref_a': a, 'ref_b': b, 'cwd': cwd, 'paths': paths}
+    cli = lambda argv, a, b, paths, cwd='': {'mode': 'cli', 'argv': argv, 'argv_pos': argv, 'ref_a': a, 'ref_b': b, 'paths': paths, 'cwd': cwd}
+    base = [['write', 'x.ipynb', 1], ['write', 'sub/y.ipynb', 2], ['write', 'm.ipynb', 3], ['commit']]
+    def sc(name, ops, q, **kw):
+        d = {'src': 'fixed-del:' + name, 'root_rel': ROOT_REL, 'ops': base + ops, 'query': q, 'decoys': [], 'filter': None}
+        d.update(kw); out.append(d)
+    sc('rm-cached-root', [['rm_cached', 'x.ipynb'], ['write', 'm.ipynb', 4]], api('HEAD', 'WORKTREE', ''))
+    sc('rm-cached-edited', [['rm_cached', 'x.ipynb'], ['write', 'x.ipynb', 5]], api('HEAD', 'WORKTREE', ''))
+    sc('rm-cached-subdir', [['rm_cached', 'sub/y.ipynb'], ['write', 'm.ipynb', 4]], api('HEAD', 'WORKTREE', 'sub'))
+    sc('rm-cached-subdir-path', [['rm_cached', 'sub/y.ipynb']], api('HEAD', 'WORKTREE', 'sub', ['y.ipynb']))
+    sc('recreated-untracked', [['rm', 'x.ipynb'], ['add', 'x.ipynb'], ['write', 'x.ipynb', 6]], api('HEAD', 'WORKTREE', ''))
+    sc('recreated-untracked-subdir', [['rm', 'sub/y.ipynb'], ['add', 'sub/y.ipynb'], ['write', 'sub/y.ipynb', 2]], api('HEAD', 'WORKTREE', 'sub'))
+    sc('rm-cached-index-worktree', [['rm_cached', 'x.ipynb'], ['write', 'm.ipynb', 4]], api('INDEX', 'WORKTREE', ''))
+    sc('rm-cached-commit-index', [['rm_cached', 'x.ipynb']], api('HEAD', 'INDEX', 'sub'))
+    sc('directory-at-deleted-path', [['rm', 'x.ipynb'], ['write', 'x.ipynb/inner.ipynb', 7]], api('INDEX', 'WORKTREE', ''))
+    sc('rm-cached-filter', [['rm_cached', 'x.ipynb'], ['write', 'm.ipynb', 4]], api('HEAD', 'WORKTREE', ''), filter='*.ipynb')
+    sc('rm-cached-cli', [['rm_cached', 'x.ipynb'], ['write', 'm.ipynb', 4]], cli([], 'HEAD', 'WORKTREE', None))
+    sc('rm-cached-cli-subdir-path', [['rm_cached', 'sub/y.ipynb']], cli(['HEAD', 'y.ipynb'], 'HEAD', 'WORKTREE', ['y.ipynb'], cwd='sub'))
+    sc('ordinary-deletion-and-modification', [['rm', 'x.ipynb'], ['write', 'm.ipynb', 4]], api('HEAD', 'WORKTREE', 'sub'))
+    return out
+
+
 def gen_cases(chk, tier):
     cases = fixed_scenarios()
     cdir = os.path.join(core.VERIF, 'corpus', PROP)
@@ -224,6 +351,9 @@ def gen_cases(chk, tier):
     for i in range(n): cases.append(gen_scenario(chk.rng, i))
     # appended last, so that the random stream of the scenarios above is what it was before this family existed
     for i in range(60 if tier == 'quick' else 600): cases.append(gen_abs_scenario(chk.rng, i))
+    # appended after everything else for the same reason: git says "deleted", something sits at the path on disk
+    cases += deleted_fixed()
+    for i in range(70 if tier == 'quick' else 700): cases.append(gen_deleted_scenario(chk.rng, i))
     return cases
 
 # ------------------------------------------------------------------ running the implementation
@@ -277,9 +407,10 @@ def predict(sc, res, S):
     ra, rb = q['ref_a'], q['ref_b']
     if 'clibase' in S: ra = 'WORKTREE'
     pairs = []; ycwd = []; exc = None
-    def side(ref, path, cwd):
+    def side(ref, path, cwd, deleted=False):
         if not path.endswith(NB): return 'notnb', cwd
         if ref != 'WORKTREE': return cont.get((ref, path)), cwd
+        if deleted: return None, cwd        # git reports a deletion: the null file, whatever sits at the path on disk
         rd, new = (up(k, cwd), up(k, cwd)) if 'drift' in S else (root, cwd)
         if rd == root and filt.get(path) is not None:
             v = filt[path]
@@ -291,7 +422,7 @@ def predict(sc, res, S):
         if a == 'raise': exc = 'FileNotFoundError'; cwd = cwd2; break
         if a == 'notnb' and ('mixed' in S or not e['b'].endswith(NB)):
             cwd = cwd2; continue
-        b, cwd3 = side(rb, e['b'], cwd2)
+        b, cwd3 = side(rb, e['b'], cwd2, deleted=e['status'].startswith('D'))
         cwd = cwd3
         if b == 'raise': exc = 'FileNotFoundError'; break
         if b == 'notnb':
@@ -411,8 +542,8 @@ Definition mode_eqb (a b : mode) : bool :=
   | _, _ => false
   end.
 Definition Y (a b : stream) (c : path) : yielded := {| y_a := a; y_b := b; y_cwd := c |}.
-Definition E (a : path) (x : option content) (b : path) (y : option content) : entry :=
-  {| a_path := a; a_blob := x; b_path := b; b_blob := y |}.
+Definition E (a : path) (x : option content) (b : path) (y : option content) (d : bool) : entry :=
+  {| a_path := a; a_blob := x; b_path := b; b_blob := y; e_deleted := d |}.
 '''
 
 
@@ -469,7 +600,8 @@ def model_terms(sc, res):
     fs = '[' + '; '.join('(%s, %s)' % (cpath(canon_abs(p, base)), cN(c)) for p, c in f['snapshot']) + ']'
     ft = '[' + '; '.join('(%s, %s)' % (cpath(comps(p)), 'FRaiseIO' if v == 'raise' else '(FSome %s)' % cN(v)) for p, v in sorted(f['filter_at_root'].items()) if v is not None) + ']'
     def blob(h): return 'None' if h == '0' * 40 else '(Some %s)' % cN(f['blobs'].get(h))
-    es = '[' + '; '.join('E %s %s %s %s' % (cpath(comps(e['a'])), blob(e['asha']), cpath(comps(e['b'])), blob(e['bsha'])) for e in f['raw']) + ']'
+    es = '[' + '; '.join('E %s %s %s %s %s' % (cpath(comps(e['a'])), blob(e['asha']), cpath(comps(e['b'])), blob(e['bsha']),
+                                               'true' if e['status'].startswith('D') else 'false') for e in f['raw']) + ']'
     qp = '[' + '; '.join(cpath(comps(p)) for p in f['prefixed_paths']) + ']'
     qb = cref('HEAD' if ra == 'WORKTREE' else ra)
     W = 'mk_world %s %s %s %s %s %s %s' % (fs or '[]', cpath(root), ft, qb, cref(rb), qp, es)
@@ -614,6 +746,11 @@ def run_checked(chk, b, tier):
                            'commit' if q['ref_b'] not in ('INDEX', 'WORKTREE') else q['ref_b'].lower())
         key = '%s %s depth%d %s%s' % (q['mode'], kind, len(comps(q['cwd'])),
                                       ('abspaths' if any(is_abs_filter(p) for p in ([q['paths']] if isinstance(q['paths'], str) else q['paths'])) else 'paths') if q['paths'] else 'nopaths', ' filter' if sc.get('filter') else '')
+        if str(sc.get('src', '')).split(':')[0] in ('rand-del', 'fixed-del'): key += ' deleted-with-something-on-disk'
+        if 'facts' in res and q['ref_b'] == 'WORKTREE':
+            root_ = res['root']; onp = {p for p, _ in res['facts']['snapshot']}
+            if any(e['status'].startswith('D') and e['b'].endswith(NB) and (root_ + '/' + e['b']) in onp for e in res['facts']['name_status']):
+                hist['(entries git reports as deleted with a file at the path)'] = hist.get('(entries git reports as deleted with a file at the path)', 0) + 1
         hist[key] = hist.get(key, 0) + 1
         if 'facts' in res and any(e['a'].endswith(NB) or e['b'].endswith(NB) for e in res['facts']['name_status']):
             nontrivial.add(json.dumps(strip(sc), sort_keys=True))
@@ -660,7 +797,12 @@ def run_checked(chk, b, tier):
                 '(of a file that exists / was deleted / was never there, inside or outside the invocation directory; of a directory with or without '
                 'trailing slash; of the repository root; sometimes with a redundant "." component; sometimes mixed with relative filters), all ref '
                 'pair kinds, API and command line ("abspaths" in the histogram; judged by T2 against git asked the same question from the same '
-                'directory, T1 covers only the ref-vs-path reading of the words for them); non-trivial = git reports at least one '
+                'directory, T1 covers only the ref-vs-path reading of the words for them); last the deleted-with-something-on-disk family: 13 fixed '
+                'scenarios, then random histories in which 1-3 notebooks of the last commit are `git rm --cached` (file left, edited or not), or removed + '
+                'removal staged + re-created untracked (same or new content), or replaced by a directory of the same name, or plainly deleted (control), '
+                'queried commit/worktree (70%; HEAD or an older ref), index/worktree, commit/index, commit/commit, from the root / the victim\'s directory / '
+                'an ancestor / elsewhere, with or without path filters, API and command line, sometimes with a clean filter or a decoy; the judge takes the '
+                'null file for the remote side of every entry git reports as D; non-trivial = git reports at least one '
                 'changed notebook for the query, distinct by canonical JSON of the scenario',
         'input_distribution': hist, 'traces_validated_against_impl': t1, 'model_impl_mismatches': mism,
         'model_terms_evaluated': len(terms), 'exhaustive': False,
